@@ -252,7 +252,14 @@ def get_input_data(world: World, sim: SimRunner) -> InputData:
             attrs_old,
         ),
         input_data,
-        sim.persistent_inputs,
+        # Merge from a copy of the three dict levels, as merge_all puts
+        # the dicts of its second argument into the result. Otherwise,
+        # pushed inputs added below would end up in the persistent
+        # inputs, as well.
+        {
+            eid: {attr: dict(vals) for attr, vals in attrs.items()}
+            for eid, attrs in sim.persistent_inputs.items()
+        },
     )
     # Merge in pushed inputs from the timed input buffer
     input_data = sim.timed_input_buffer.get_input(input_data, sim.current_step.time)
